@@ -865,8 +865,66 @@ class X:
             self.exec_block(s.body)
         self.loop_cut(s, k, names, fields, mutated, body, guard, s.orelse)
 
+    def _loop_as_comprehension(self, s):
+        """a for statement that is a comprehension in statement form:
+             for t in A: [for u in B:] [if c: continue] [if d:]  f(...)            -> [f(...) for t in A ...]      (effects only)
+             for t in A: [for u in B:] [if c: continue] [if d:]  acc.append(e)     -> acc = [e for t in A ...]     (acc empty before)
+             for t in A: [if c: continue] [if d:]  acc[k] = v                      -> acc = {k: v for t in A ...}  (acc empty before)
+        returns (kind, comprehension node, accumulator name) or None.  Python runs both forms identically (same evaluation order,
+        same number of evaluations); only the scope of the loop targets differs, which matters only if they are read afterwards."""
+        gens, cur = [], s
+        while True:
+            if cur.orelse:
+                return None
+            ifs, body = [], list(cur.body)
+            while body and isinstance(body[0], ast.If) and not body[0].orelse and len(body[0].body) == 1 \
+                    and isinstance(body[0].body[0], ast.Continue):
+                ifs.append(ast.UnaryOp(op=ast.Not(), operand=body[0].test))
+                body = body[1:]
+            while len(body) == 1 and isinstance(body[0], ast.If) and not body[0].orelse:
+                ifs.append(body[0].test)
+                body = list(body[0].body)
+            gens.append(ast.comprehension(target=cur.target, iter=cur.iter, ifs=ifs, is_async=0))
+            if len(body) == 1 and isinstance(body[0], ast.For):
+                cur = body[0]
+                continue
+            break
+        if len(body) != 1:
+            return None
+        st = body[0]
+        node, kind, acc = None, None, None
+        if isinstance(st, ast.Expr) and isinstance(st.value, ast.Call):
+            c = st.value
+            if isinstance(c.func, ast.Attribute) and c.func.attr == 'append' and isinstance(c.func.value, ast.Name) \
+                    and len(c.args) == 1 and not c.keywords:
+                kind, node, acc = 'list', ast.ListComp(elt=c.args[0], generators=gens), c.func.value.id
+            else:
+                kind, node = 'effect', ast.ListComp(elt=c, generators=gens)
+        elif isinstance(st, ast.Assign) and len(st.targets) == 1 and isinstance(st.targets[0], ast.Subscript) \
+                and isinstance(st.targets[0].value, ast.Name) and not isinstance(st.targets[0].slice, ast.Slice):
+            kind, node, acc = 'dict', ast.DictComp(key=st.targets[0].slice, value=st.value, generators=gens), st.targets[0].value.id
+        if node is None:
+            return None
+        ast.copy_location(node, s)
+        ast.fix_missing_locations(node)
+        return kind, node, acc
+
     def st_For(self, s):
         k = self.loop_ids[id(s)]
+        if self.contract.loop_inv.get(k) is None:
+            # no invariant for this loop: it may be a comprehension written as a statement (the form the contract knows)
+            norm = self._loop_as_comprehension(s)
+            if norm is not None:
+                kind, node, acc = norm
+                cur = self.env.get(acc) if acc else None
+                empty = acc is None or (isinstance(cur, VList) and not cur.items and kind == 'list') \
+                    or (isinstance(cur, VEmptyDict) and kind == 'dict')
+                nested_ids = [self.loop_ids[id(n)] for n in ast.walk(s) if isinstance(n, ast.For) and n is not s]
+                if empty and all(self.contract.loop_inv.get(j) is None for j in nested_ids):
+                    val = self.eval(node)
+                    if acc:
+                        self.env[acc] = val
+                    return
         it = self.eval_iter(s.iter)
         names, fields, mutated = assigned_names([s.target] + s.body + s.orelse)
         if it[0] == 'concrete':
@@ -1427,7 +1485,7 @@ class X:
             r = self.contract.construct_hook(self, dict, [], {})
             if r is not None:
                 return r
-            raise Unsupported('dict display')
+            return VEmptyDict()
         if any(k is None for k in e.keys):
             raise Unsupported('dict display with ** unpacking')
         return VDictLit([(self.eval(k), self.eval(v)) for k, v in zip(e.keys, e.values)])
@@ -1439,6 +1497,10 @@ class X:
         v = self.eval(e.value)
         self.assign(e.target, v)
         return v
+
+
+class VEmptyDict(Val):
+    """a fresh `{}`: only good for being filled by a loop that is a dict comprehension in statement form"""
 
 
 class VDictLit(Val):
@@ -1580,6 +1642,7 @@ class Driver:
         self.repo = repo
         self.src = Source(repo, contract.file, contract.qualname)
         self.loops = loops_of(self.src.node)
+        contract._driver = self      # lets a contract key its loop invariants by what a loop iterates over, not by its ordinal
         self.module_globals = module_globals if module_globals is not None else {}
         self.pending = []
         self.obligations = {}
